@@ -60,7 +60,7 @@ inline Verdict decodeVerdict(const std::string &buf, int status, int timeout_s) 
     std::istringstream is(buf);
     std::string line; int frames = 0;
     while (std::getline(is, line)) {
-      if (line.find("ERROR:") != std::string::npos || line.find("runtime error") != std::string::npos || line.find("SUMMARY") != std::string::npos) tail += line + " | ";
+      if (line.find("ERROR:") != std::string::npos || line.find("runtime error") != std::string::npos || line.find("SUMMARY") != std::string::npos || line.find("Assertion") != std::string::npos) tail += line + " | ";
       else if (line.find("    #") == 0 && frames < 4 && line.find("/repo/") != std::string::npos) { tail += line.substr(4) + " | "; frames++; }
     }
     if (tail.empty()) tail = buf.size() > 600 ? buf.substr(buf.size() - 600) : buf;
